@@ -12,7 +12,7 @@ theorem ropt_comm (a b : ROpt) (x : SearchOpts) : ROpt.set (ROpt.set x a) b = RO
 theorem parse_search_ret (cfg : Cfg) (tag : Nat) (uid : Bool) (c : Crit) (l : List ROpt) (os : SearchOpts) (cs : Bool)
     (hok : CritOK c) (hd : depth c < maxListDepth) (hl : l.foldl ROpt.set {} = os) :
     parseOne cfg (tagW tag ++ (uidName uid "SEARCH" ++ (sp ++ (atom (str "RETURN") ++ (sp ++ (wList (l.map ROpt.wire) ++
-      (sp ++ (afterOpts cs c ++ crlf)))))))) = .ok ([.search uid (canonCrit c) (canonSearchOpts (some os))], []) := by
+      (sp ++ (afterOpts cs c ++ crlf)))))))) = .ok ([.search uid (delivCrit c) (canonSearchOpts (some os))], []) := by
   rw [parse_uidName cfg tag uid "SEARCH" _ (isName_kw "SEARCH") (by decide) (stops_sp_atom _), dispatch_search]
   have hsp : span isSearchAtomChar (atom (str "RETURN") ++ (sp ++ (wList (l.map ROpt.wire) ++ (sp ++ (afterOpts cs c ++ crlf))))) =
       (str "RETURN", sp ++ (wList (l.map ROpt.wire) ++ (sp ++ (afterOpts cs c ++ crlf)))) :=
@@ -29,7 +29,7 @@ theorem parse_search_ret (cfg : Cfg) (tag : Nat) (uid : Bool) (c : Crit) (l : Li
 theorem parse_search_noret (cfg : Cfg) (tag : Nat) (uid : Bool) (c : Crit) (cs : Bool)
     (hok : CritOK c) (hd : depth c < maxListDepth) :
     parseOne cfg (tagW tag ++ (uidName uid "SEARCH" ++ (sp ++ (afterOpts cs c ++ crlf)))) =
-      .ok ([.search uid (canonCrit c) (canonSearchOpts (some {}))], []) := by
+      .ok ([.search uid (delivCrit c) (canonSearchOpts (some {}))], []) := by
   rw [parse_uidName cfg tag uid "SEARCH" _ (isName_kw "SEARCH") (by decide) (stops_sp_atom _), dispatch_search]
   have hnoret : ∀ a0 r1, span isSearchAtomChar (afterOpts cs c ++ crlf) = (a0, r1) → (a0 ≠ [] && upper a0 = str "RETURN") = false := by
     intro a0 r1 h
@@ -50,13 +50,14 @@ theorem parse_search_noret (cfg : Cfg) (tag : Nat) (uid : Bool) (c : Crit) (cs :
   simp only [Bool.false_eq_true, if_false, hrest]
   simp [pure, Except.pure]
 
-/-- SEARCH / UID SEARCH: delivered whatever order the RETURN options are written in -/
+/-- SEARCH / UID SEARCH: delivered whatever order the RETURN options are written in.  The criteria arrive in
+    canonical form with every number set as `ParseSet` builds it (`delivCrit`) -/
 theorem search_delivers (cfg : Cfg) (tag : Nat) (uid : Bool) (c : Crit) (o : Option SearchOpts) (hok : CritOK c)
     (hd : depth c < maxListDepth) :
-    Delivers {} cfg tag (.search uid c o) (sem cfg (.search uid c o)) := by
+    Delivers {} cfg tag (.search uid c o) [.search uid (delivCrit c) (canonSearchOpts o)] := by
   let os := o.getD {}
   let cs : Bool := cfg.needCharset && !critIsAscii c
-  have hsem : sem cfg (.search uid c o) = [.search uid (canonCrit c) (canonSearchOpts (some os))] := by
+  have hsem : [Cmd.search uid (delivCrit c) (canonSearchOpts o)] = [.search uid (delivCrit c) (canonSearchOpts (some os))] := by
     cases o <;> rfl
   have hw : wBody {} cfg (.search uid c o) =
       .ok [[.fixed (uidName uid "SEARCH" ++ (if (rOpts os).map ROpt.wire = [] then [] else sp ++ kw "RETURN" ++ sp ++ [.b 40]))] ++
@@ -69,8 +70,8 @@ theorem search_delivers (cfg : Cfg) (tag : Nat) (uid : Bool) (c : Crit) (o : Opt
     | some o' =>
       simp only [wBody, wCrit_ok c hok, bind, Except.bind, pure, Except.pure, Bool.false_eq_true, if_false, searchReturnItems_eq]
       rfl
-  apply delivers_single cfg tag _ _ _ hw
   rw [hsem]
+  apply delivers_single cfg tag _ _ _ hw
   intro w hl
   by_cases hnil : rOpts os = []
   · have hos : os = {} := by
@@ -99,5 +100,57 @@ theorem search_delivers (cfg : Cfg) (tag : Nat) (uid : Bool) (c : Crit) (o : Opt
     have := parse_search_ret cfg tag uid c l os cs hok hd hfold
     simp only [afterOpts, wList, kw, List.append_assoc, List.append_nil] at this ⊢
     rw [this]
+
+
+theorem search_fidelity (cfg : Cfg) (tag : Nat) (uid : Bool) (c : Crit) (o : Option SearchOpts) (hok : CritOK c)
+    (hd : depth c < maxListDepth) :
+    roundTrip {} cfg tag (.search uid c o) = .calls [.search uid (delivCrit c) (canonSearchOpts o)] :=
+  roundTrip_of_delivers cfg tag _ _ (search_delivers cfg tag uid c o hok hd)
+
+/-! ### criteria whose sets are canonical: what is delivered is the specification's `sem` -/
+
+structure FlatNF (f : Flat) : Prop where
+  seq : ∀ s ∈ f.seqSets, SetOK s ∧ SetNF s
+  uid : ∀ s ∈ f.uidSets, SetOK s ∧ SetNF s
+
+mutual
+  def CritNF : Crit → Prop
+    | .mk f nots ors => FlatNF f ∧ NotsNF nots ∧ OrsNF ors
+  def NotsNF : CritList → Prop
+    | .nil => True
+    | .cons c t => CritNF c ∧ NotsNF t
+  def OrsNF : OrList → Prop
+    | .nil => True
+    | .cons a b t => CritNF a ∧ CritNF b ∧ OrsNF t
+end
+
+theorem map_deliv_eq_canon (l : List NSet) (h : ∀ s ∈ l, SetOK s ∧ SetNF s) : l.map delivN = l.map canonNSet := by
+  apply List.map_congr_left
+  intro s hs
+  rw [delivN_canon s (h s hs).1, canonNSet_nf s (h s hs).2]
+
+mutual
+  theorem delivCrit_eq_canon : ∀ (c : Crit), CritNF c → delivCrit c = canonCrit c
+    | .mk f nots ors, h => by
+      unfold CritNF at h
+      simp only [delivCrit, canonCrit, delivFlat, map_deliv_eq_canon f.seqSets h.1.seq, map_deliv_eq_canon f.uidSets h.1.uid,
+        delivNots_eq_canon nots h.2.1, delivOrs_eq_canon ors h.2.2]
+      rfl
+  theorem delivNots_eq_canon : ∀ (l : CritList), NotsNF l → delivNots l = canonNots l
+    | .nil, _ => rfl
+    | .cons c t, h => by
+      unfold NotsNF at h
+      simp only [delivNots, canonNots, delivCrit_eq_canon c h.1, delivNots_eq_canon t h.2]
+  theorem delivOrs_eq_canon : ∀ (l : OrList), OrsNF l → delivOrs l = canonOrs l
+    | .nil, _ => rfl
+    | .cons a b t, h => by
+      unfold OrsNF at h
+      simp only [delivOrs, canonOrs, delivCrit_eq_canon a h.1, delivCrit_eq_canon b h.2.1, delivOrs_eq_canon t h.2.2]
+end
+
+theorem search_sem (cfg : Cfg) (uid : Bool) (c : Crit) (o : Option SearchOpts) (h : CritNF c) :
+    [Cmd.search uid (delivCrit c) (canonSearchOpts o)] = sem cfg (.search uid c o) := by
+  rw [delivCrit_eq_canon c h]
+  rfl
 
 end GoImap.CmdLemmas
